@@ -107,8 +107,8 @@ theorem isPartition_perm (len : Nat) (rs rs' : List Range) (hperm : rs'.Perm rs)
 
 /-- `step` writes only cell `w i`, and the value written depends only on the cells `r i`. -/
 structure Footprint (step : Nat → Heap α → Heap α) (w : Nat → Addr) (r : Nat → List Addr) : Prop where
-  frame : ∀ i (h : Heap α) x, x ≠ w i → step i h x = h x
-  dep : ∀ i (h h' : Heap α), (∀ x ∈ r i, h x = h' x) → step i h (w i) = step i h' (w i)
+  frame : ∀ i (h : Heap α) x, x ≠ w i → (step i h).get x = h.get x
+  dep : ∀ i (h h' : Heap α), (∀ x ∈ r i, h.get x = h'.get x) → (step i h).get (w i) = (step i h').get (w i)
 
 theorem ElemTask.footprint (t : ElemTask α) : Footprint t.step t.w t.r where
   frame := by
@@ -138,7 +138,8 @@ theorem step_comm {step : Nat → Heap α → Heap α} {w : Nat → Addr} {r : N
   have hji : j ≠ i := fun e => hij e.symm
   obtain ⟨hw1, hr1⟩ := hna i hi j hj hij
   obtain ⟨hw2, hr2⟩ := hna j hj i hi hji
-  funext x
+  apply Heap.ext'
+  intro x
   by_cases hxi : x = w i
   · subst hxi
     rw [fp.frame j _ _ hw1]
@@ -167,7 +168,7 @@ theorem runList_perm {step : Nat → Heap α → Heap α} {w : Nat → Addr} {r 
 
 theorem runList_frame {step : Nat → Heap α → Heap α} {w : Nat → Addr} {r : Nat → List Addr}
     (fp : Footprint step w r) (l : List Nat) (h : Heap α) (x : Addr) (hx : ∀ j ∈ l, x ≠ w j) :
-    runList step l h x = h x := by
+    (runList step l h).get x = h.get x := by
   induction l generalizing h with
   | nil => rfl
   | cons j l ih =>
@@ -179,7 +180,7 @@ theorem runList_frame {step : Nat → Heap α → Heap α} {w : Nat → Addr} {r
 theorem runList_at {step : Nat → Heap α → Heap α} {w : Nat → Addr} {r : Nat → List Addr}
     (fp : Footprint step w r) (len : Nat) (hna : NoCrossAlias len w r)
     (l : List Nat) (hnd : l.Nodup) (hlt : ∀ i ∈ l, i < len) (h : Heap α) (i : Nat) (hi : i ∈ l) :
-    runList step l h (w i) = step i h (w i) := by
+    (runList step l h).get (w i) = (step i h).get (w i) := by
   have hperm : l.Perm (l.erase i ++ [i]) := by
     have := List.perm_cons_erase hi
     exact this.trans (List.perm_append_singleton i (l.erase i)).symm
@@ -198,8 +199,10 @@ theorem runList_at {step : Nat → Heap α → Heap α} {w : Nat → Addr} {r : 
 theorem runList_range_eq_elementwise {step : Nat → Heap α → Heap α} {w : Nat → Addr} {r : Nat → List Addr}
     (fp : Footprint step w r) (len : Nat) (hna : NoCrossAlias len w r) (h : Heap α) :
     runList step (List.range len) h = elementwise step w len h := by
-  funext x
+  apply Heap.ext'
+  intro x
   unfold elementwise
+  simp only
   cases hf : (List.range len).find? (fun i => w i = x) with
   | some i =>
     have hm := List.mem_of_find?_eq_some hf
